@@ -58,6 +58,11 @@ def gen_session(rng, quick):
             b = rng.choice([k for k in range(NSL) if k != a])
             lines.append("copy %d %d" % (a, b)); target.append(b)
             mir[b] = pycopy.deepcopy(mir[a])
+            if rng.chance(0.5):
+                # equal problems with equal parameters must be solved alike
+                e = rng.choice(["primal", "dual", "dual"])
+                lines.append("solve %d %s" % (a, e)); target.append(a)
+                lines.append("solve %d %s" % (b, e)); target.append(b)
         elif w == "free" and len(live) > 1:
             k = rng.choice(live)
             lines.append("free %d" % k); target.append(k)
@@ -110,7 +115,10 @@ def int_problem_lines(rng, exe):
         return None
     text = bytes.fromhex(fb[0]).decode("latin-1")
     names = ["x%d" % j for j in range(len(lp.cols))]
-    present = [n for n in names if (" " + n) in text]
+    body = text.split("\nBounds\n")[0]
+    present = [n for n in names if (" " + n + " ") in body.replace("\n", " \n") or (" " + n + "\n") in body]
+    if len(present) != len(names):
+        return None          # a column that appears in no row and not in the objective cannot be named in the Bounds section
     ints = [n for n in present if rng.chance(0.5)] or present[:1]
     if not ints:
         return None
@@ -141,6 +149,16 @@ def run(pid, tier, seed):
     for k in range(150 if quick else 3000):
         r = rng.fork("sess%d" % k)
         lines, target = gen_session(r, quick)
+        sessions.append(with_all_dumps(lines, target) + (lines,))
+    for k in range(80 if quick else 1500):
+        r = rng.fork("lim%d" % k)
+        lp = gen.random_lp(r, m=r.rint(1, 4), n=r.rint(1, 4), dens=0.8, shapes=["box", "default", "box"])
+        lp.sense = r.choice(["min", "max"])
+        lines = ["new 0 " + lp.line(), "setlim 0 %s %s" % (r.choice("UL"), q2s(F(r.rint(-12, 12), r.choice([1, 2])))), "setparam 0 2 %d" % r.choice([6, 7, 9]),
+                 "copy 0 1"]
+        e = r.choice(["dual", "dual", "primal"])
+        lines += ["solve 0 " + e, "solve 1 " + e]
+        target = [0, 0, 0, 1, 0, 1]
         sessions.append(with_all_dumps(lines, target) + (lines,))
     def work(s):
         return proto.run_harness(exe, s[0], timeout=600)
@@ -209,6 +227,30 @@ def run(pid, tier, seed):
                             if proto.get(pa, key) != proto.get(pb, key):
                                 rep.violation("the copy has other parameters than the original (%s): original %s, copy %s" % (key, proto.get(pa, key), proto.get(pb, key)),
                                               dict(ctx, at=cmd), signature={"symptom": "copy-params-differ", "key": key, "which": [x != y for x, y in zip(proto.get(pa, key), proto.get(pb, key))].index(True)})
+        # paired solves right after a copy: same status and value
+        for idx in range(len(blocks) - 1):
+            (kd, ka, ca), (_, ba) = blocks[idx]
+            if kd != "cmd" or not ca.startswith("solve "):
+                continue
+            nxt = next(((c2, b2) for (kd2, k2, c2), (_, b2) in blocks[idx + 1:] if kd2 == "cmd"), None)
+            prev = next((c0 for (kd0, k0, c0), _ in reversed(blocks[:idx]) if kd0 == "cmd"), "")
+            if nxt is None or not prev.startswith("copy ") or not nxt[0].startswith("solve ") or nxt[0].split()[2:] != ca.split()[2:]:
+                continue
+            ra = (proto.get(ba, "rval"), proto.get(ba, "status"), proto.get(ba, "objval") if proto.get(ba, "status") == ["1"] else None)
+            rb = (proto.get(nxt[1], "rval"), proto.get(nxt[1], "status"), proto.get(nxt[1], "objval") if proto.get(nxt[1], "status") == ["1"] else None)
+            ev.stat("paired-solves")
+            ev.stat("paired-solve-status:%s" % (ra[1][0] if ra[1] else "?"))
+            sa, sb = (ra[1] or ["?"])[0], (rb[1] or ["?"])[0]
+            definitive = ("1", "2", "3")
+            differs = ra[0] != rb[0] or (sa in definitive and sb in definitive and ra != rb) or {sa, sb} == {"1", "9"}
+            if ra != rb and not differs:
+                # a fresh copy starts from scratch while the original may continue from its last basis: iteration / time limits,
+                # UNSOLVED, and OBJ_LIMIT versus INFEASIBLE / UNBOUNDED are not statements about the problem
+                ev.stat("paired-solve-nondefinitive-difference:%s" % "/".join(sorted([sa, sb])))
+            if differs:
+                rep.violation("original and copy are solved differently right after the copy (%s): original %s, copy %s" % (" ".join(ca.split()[2:]), ra, rb), dict(ctx, at=prev),
+                              signature={"symptom": "copy-solves-differently", "entry": ca.split()[2], "statuses": "/".join(sorted([sa, sb]))})
+                break
         # model tie
         ev.cov["traces_validated_against_impl"] += 1
         if mtr.crashed:
@@ -247,6 +289,9 @@ def run(pid, tier, seed):
         ev.stat("int-sessions")
         ev.count("|".join(lines))
         ctx = {"lines": lines}
+        if tr.crashed and getattr(tr, "returncode", 0) == 3 and len(tr) <= 3:
+            ev.stat("int-sessions-file-not-readable")
+            continue
         if tr.crashed:
             at = len(tr)
             rep.violation("library crashed while working with a copy of a problem with integrality marks at %r: %s" % (lines[at] if at < len(lines) else "?", tr.crashed[-300:]),
